@@ -3,6 +3,7 @@ package schedsim
 import (
 	"context"
 	"fmt"
+	"os"
 	"sort"
 	"strings"
 	"testing/synctest"
@@ -384,7 +385,11 @@ func (m *model) observe() {
 
 	snap, lockFree := w.bq.VerifCheckInvariants()
 	if !lockFree {
-		w.failf("C14/C01: the scheduler lock is held at quiescence (a call returned or parked without releasing it)")
+		// The bubble can never drain once the lock is leaked (goroutines
+		// blocked on a mutex are not durably blocked), so report and end
+		// the process instead of going through rt.Fatalf and shrinking.
+		fmt.Printf("VERIF-VIOLATION property=C14/C01: the scheduler lock is held at quiescence (a call returned or parked without releasing it)\nscript:\n%s", formatScript(w.script))
+		os.Exit(1)
 	}
 	if len(snap.Verdict) > 0 {
 		w.failf("C01: structural invariant violated: %s", strings.Join(snap.Verdict, "; "))
